@@ -1830,7 +1830,12 @@ def gen_hyp_case(rng):
                 continue
             b = rng.choice(inter)
             k = b[0]
-            atoms.insert(k + 1, list(atoms[k][:8]) + [max(a[8] for a in atoms) + 1])
+            # a fresh atom_id that stays inside the column's integer range (max + 1 may leave int32 when the
+            # integer-boundary flavour put the ids at 2**31 - 1: BinaryCIF rightly refuses such a column)
+            used_ids = {a[8] for a in atoms}
+            top_id = max(used_ids)
+            fresh = next(x for x in range(top_id - 1, top_id - 10 ** 6, -1) if x not in used_ids)
+            atoms.insert(k + 1, list(atoms[k][:8]) + [fresh])
             bonds = [[i + (i > k), j + (j > k), t] for i, j, t in bonds]
             for fld in ("b_factor", "occupancy"):
                 if spec.get(fld) is not None:
